@@ -27,6 +27,7 @@ import . "github.com/pbenner/autodiff/logarithmetic"
 
 import . "github.com/pbenner/autodiff"
 import . "github.com/pbenner/threadpool"
+import   "github.com/pbenner/autodiff/verifhook"
 
 /* -------------------------------------------------------------------------- */
 
@@ -139,6 +140,8 @@ func (obj *HmmStdDataSet) EvaluateLogPdf(edist []VectorPdf, pool ThreadPool) err
   g := pool.NewJobGroup()
   // evaluate emission distributions
   if err := pool.AddRangeJob(0, n, g, func(i int, pool ThreadPool, erf func() error) error {
+    verifhook.Yield("matrixEstimator.hmm_data.job")
+    verifhook.Event("matrixEstimator.hmm_data", i, pool.GetThreadId())
     if erf() != nil {
       return nil
     }
@@ -157,6 +160,7 @@ func (obj *HmmStdDataSet) EvaluateLogPdf(edist []VectorPdf, pool ThreadPool) err
   }); err != nil {
     return fmt.Errorf("evaluating emission probabilities failed: %v", err)
   }
+  verifhook.Yield("matrixEstimator.hmm_data.queued")
   if err := pool.Wait(g); err != nil {
     return fmt.Errorf("evaluating emission probabilities failed: %v", err)
   }
